@@ -1,10 +1,10 @@
 #!/bin/bash
-# Runs every seeded defect against the check of the property it breaks (PAR at a time) and prints a table.
-#   selftest/matrix.sh [tier] [PAR]
+# Runs seeded defects against the check of the property each breaks (PAR at a time) and prints a table.
+#   selftest/matrix.sh [tier] [PAR] [name-glob]
 ROOT="$(cd "$(dirname "$0")/.." && pwd)"
-TIER="${1:-quick}"; PAR="${2:-4}"
-OUT=$ROOT/.work/matrix; mkdir -p $OUT; rm -f $OUT/*.txt
+TIER="${1:-quick}"; PAR="${2:-4}"; GLOB="${3:-*}"
+OUT=$ROOT/.work/matrix; mkdir -p $OUT
 run() { n=$1; p=$(python3 -c "import json;print(json.load(open('$ROOT/seeded/$n/meta.json'))['breaks_property'])"); $ROOT/selftest/run_seeded.sh $n $p $TIER > $OUT/$n.txt 2>&1; }
 export -f run; export ROOT TIER OUT
-ls $ROOT/seeded | xargs -P $PAR -I{} bash -c 'run {}'
-for f in $(ls $OUT/*.txt | sort); do n=$(basename $f .txt); r=$(grep -h "^RESULT" $f | tail -1); c=$(grep -h "check=" $f | sed -e 's/.*check=\([^ ]*\).*/\1/' | sort -u | head -4 | tr '\n' ',' ); echo "$r  [$c]"; done
+(cd $ROOT/seeded && ls -d $GLOB) | xargs -P $PAR -I{} bash -c 'run {}'
+for n in $(cd $ROOT/seeded && ls -d $GLOB | sort); do f=$OUT/$n.txt; r=$(grep -h "^RESULT" $f | tail -1); c=$(grep -h "check=" $f | sed -e 's/.*check=\([^ ;]*\).*/\1/' | sort -u | head -4 | tr '\n' ',' ); echo "$r  [$c]"; done
